@@ -193,6 +193,35 @@ def family_agreement(prop, name, cfg, famstr, timeout=1200):
     return res
 
 
+def circuit_family_agreement(prop, name, cfg, enumstr, timeout=1200):
+    """Same as family_agreement for the exhaustive CIRCUIT families: mc/MC_CircFamily.tla (the gate-by-gate build of MC_ToGraph)
+    against circ::enum_circuits of the harness for `--enum enumstr`."""
+    d = os.path.join(WORK, prop)
+    f_tlc = os.path.join(d, f"cfam_{name}.tlc.ndjson")
+    r = mc_emit(prop, "cfam_" + name, "MC_CircFamily.tla", cfg, f_tlc, min(NCPU, 8), timeout)
+    if not r["ok"]:
+        raise ToolError(f"MC_CircFamily {cfg}: {r['violation']}")
+    prefix = os.path.join(d, f"cfam_{name}.h")
+    summ = record("circfamily", prefix, 1, ["--enum", enumstr], timeout)
+    with open(f_tlc) as f:
+        a = {json.dumps([c["n"], [(g["t"], g["qs"], g["ph"] % 8) for g in c["gates"]]]) for c in map(json.loads, f)}
+    b = set()
+    for sh in glob.glob(prefix + ".*.ndjson"):
+        with open(sh) as f:
+            for line in f:
+                c = json.loads(line)["c"]
+                b.add(json.dumps([c["n"], [(g["t"], g["qs"], (g["ph"][0] * (4 // g["ph"][1])) % 8) for g in c["gates"]]]))
+        os.remove(sh)
+    os.remove(f_tlc)
+    res = {"circuit_family": enumstr, "cfg": cfg, "members_tlc": len(a), "members_harness": len(b), "harness_enumerated": summ["detail"]["members"],
+           "only_tlc": len(a - b), "only_harness": len(b - a), "equal": a == b and len(b) == summ["detail"]["members"]}
+    log(f"[{prop}] FAMILY {name}: TLC builds {len(a)} circuits ({cfg}), the harness enumerates {summ['detail']['members']} ({len(b)} distinct) "
+        f"for '--enum {enumstr}': {'same set' if res['equal'] else 'DIFFERENT'}")
+    if not res["equal"]:
+        raise ToolError(f"the harness's circuit family '{enumstr}' is not the family of {cfg} (only TLC: {len(a - b)}, only harness: {len(b - a)})")
+    return res
+
+
 def record(engine, prefix, shards, args, timeout=3600):
     for f in glob.glob(prefix + ".*.ndjson"):
         os.remove(f)
